@@ -1,7 +1,7 @@
 // Command tasks replays one script (behaviour of spec/TasksImpl.tla, or an order script) against the real
 // task queue and schedule handlers of the modules package (property C07).  Every task lives on its own
 // module so that the verif yield points identify it; task functions are gates; the handlers park at
-// queue.popped, sched.fired, sched.decided and task.checked.  One process per script.
+// queue.popped, sched.arm, sched.fired, sched.decided and task.checked.  One process per script.
 //
 // usage: tasks <script.ndjson> <trace.ndjson> [skip]
 package main
@@ -149,7 +149,7 @@ func main() {
 			if !sc.FreeH {
 				sch.Yield(point, "")
 			}
-		case "sched.fired", "sched.decided":
+		case "sched.arm", "sched.fired", "sched.decided":
 			if sch.Actor() == "" {
 				sch.Bind("sh")
 			}
@@ -229,7 +229,7 @@ func main() {
 		case "qh", "sh":
 			// model sub-step -> the yield point the handler is released from (empty: the step only
 			// brings the handler to its next yield point, e.g. the timer firing or the pop itself)
-			from := map[string]string{"front": "sched.fired", "asap": "sched.decided", "rwl": "sched.decided", "launch": "task.checked"}[st.K]
+			from := map[string]string{"arm": "sched.arm", "front": "sched.fired", "asap": "sched.decided", "rwl": "sched.decided", "launch": "task.checked"}[st.K]
 			if st.A == "qh" {
 				from = map[string]string{"rwl": "queue.popped", "launch": "task.checked"}[st.K]
 			}
